@@ -48,6 +48,13 @@ _SCHEMA_MISMATCH_ERRORS = (
 )
 
 
+# The type names _iceberg_type_to_arrow maps to a column type of their own
+# (every other definition is stored in a string column).
+_PRIMITIVE_COLUMN_TYPES = frozenset({
+    "boolean", "int", "long", "float", "double", "date", "time", "timestamp",
+    "string", "uuid", "binary", "fixed",
+})
+
 # Value ranges of the integer column types.
 _INT_BOUNDS = {"int": (-(2**31), 2**31 - 1), "long": (-(2**63), 2**63 - 1)}
 
@@ -590,11 +597,24 @@ class DataFileManager:
         float column) or makes pyarrow raise (e.g. an int that a float column
         cannot hold exactly).
 
-        None always passes (nullability is checked by the caller), and so do
-        values of complex (non-string) type definitions, which are left to pyarrow.
+        None always passes (nullability is checked by the caller).
+
+        The test is made against the type of the column the value is written
+        to, so the definition is resolved exactly as _iceberg_type_to_arrow
+        resolves it: {"type": t, ...} is t (Schema accepts dict definitions
+        unvalidated - such a column used to skip this test altogether, and
+        1.5 was stored as 1), and every definition that names no known type
+        (other dict / list shapes, unknown names, map<>, struct<>) is stored in
+        a string column. Only list<> elements are left to pyarrow.
         """
-        if value is None or not isinstance(field_type, str):
+        if value is None:
             return True
+        if isinstance(field_type, dict):
+            field_type = field_type.get("type", "string")
+        if isinstance(field_type, str) and field_type.startswith("list<"):
+            return True
+        if not isinstance(field_type, str) or field_type not in _PRIMITIVE_COLUMN_TYPES:
+            field_type = "string"
         if field_type == "boolean":
             return isinstance(value, bool)
         if field_type in _INT_BOUNDS:
